@@ -89,6 +89,49 @@ static void mode_fcstr(void) {
     }
 }
 
+/* wcsnorm_s on strings of decomposable characters with every dmax from 1 up: no access outside dest, EOK only with the text an ample
+ * destination gets (terminated, *lenp right), an error only when the destination really is too small (or below the documented minimum 5) */
+static void mode_normstr(void) {
+    static const wchar_t A[] = {L'a', 0xC5, 0xE9, 0x1D6, 0xAC01, 0x1F82, 0x301, 0x323, 0x1100, 0x1161, 0x11A8, 0x10400};
+    enum { NA = sizeof A / sizeof A[0] };
+    char obs[300]; int maxlen = g_tier ? 4 : 3; wchar_t ref[2][80];
+    for (int len = 1; len <= maxlen; len++) {
+        unsigned long total = 1; for (int i = 0; i < len; i++) total *= NA;
+        for (unsigned long code = 0; code < total; code++) {
+            if (!g_tier && len == 3 && code % 3) continue;
+            wchar_t src[8]; unsigned long x = code; for (int i = 0; i < len; i++) { src[i] = A[x % NA]; x /= NA; } src[len] = 0;
+            for (int mode = 0; mode < 2; mode++) {
+                rsize_t rl = 0; errno_t rrc = _wcsnorm_s_chk(ref[mode], 80, src, mode ? WCSNORM_NFC : WCSNORM_NFD, &rl, sizeof ref[mode]);
+                const char *fm = mode ? "NFC" : "NFD";
+                if (rrc != EOK) { snprintf(obs, sizeof obs, "wcsnorm_s(%s) of a %d-character string returns %d with an ample destination", fm, len, rrc); vio("C17", "wcsnorm_s-string-rejected", fm, obs, src[0]); continue; }
+                /* the decomposition pass needs room for the NFD text even in NFC mode */
+                rsize_t dl = 0; wchar_t tmpd[80]; _wcsnorm_s_chk(tmpd, 80, src, WCSNORM_NFD, &dl, sizeof tmpd);
+                for (size_t dmax = 1; dmax <= dl + 6; dmax++) {
+                    wchar_t *d = place_end(0, dmax * sizeof(wchar_t)); for (size_t k = 0; k < dmax; k++) d[k] = 0x7878;
+                    wchar_t *sp = place_end(1, (len + 1) * sizeof(wchar_t)); memcpy(sp, src, (len + 1) * sizeof(wchar_t));
+                    rsize_t l = 99; errno_t rc = -999; probes_reset();
+                    FENCED(rc = _wcsnorm_s_chk(d, dmax, sp, mode ? WCSNORM_NFC : WCSNORM_NFD, &l, dmax * sizeof(wchar_t)));
+                    n_cases++;
+                    const char *fit = dmax < 5 ? "below-minimum-5" : dmax <= dl ? "too-small-for-NFD" : dmax < dl + 5 ? "fits-with-less-than-4-spare" : "fits-with-spare";
+                    char det[80]; snprintf(det, sizeof det, "%s|%s", fm, fit);
+                    if (g_fence.faulted) { n_faults++; snprintf(obs, sizeof obs, "wcsnorm_s(%s, dmax=%zu) on a %d-character string (NFD length %zu): %s fault at dest%+ld", fm, dmax, len, (size_t)dl, g_fence.is_write ? "WRITE" : "READ", (long)(g_fence.addr - (uintptr_t)d));
+                        vio("C17", g_fence.is_write ? "wcsnorm_s-string-overruns-dest" : "wcsnorm_s-string-reads-outside", det, obs, src[0]); continue; }
+                    if (rc == EOK) {
+                        size_t got = wcsnlen(d, dmax);
+                        if (got >= dmax) { snprintf(obs, sizeof obs, "wcsnorm_s(%s, dmax=%zu) returns EOK with an unterminated dest", fm, dmax); vio("C17", "wcsnorm_s-string-unterminated", det, obs, src[0]); }
+                        else if (got != rl || wmemcmp(d, ref[mode], rl)) { snprintf(obs, sizeof obs, "wcsnorm_s(%s, dmax=%zu) returns EOK with a different text (%zu characters) than with an ample dest (%zu)", fm, dmax, got, (size_t)rl); vio("C17", "wcsnorm_s-string-result-depends-on-dmax", det, obs, src[0]); }
+                        else if (l != rl) { snprintf(obs, sizeof obs, "wcsnorm_s(%s, dmax=%zu) stores %zu characters but reports *lenp=%zu", fm, dmax, got, (size_t)l); vio("C17", "wcsnorm_s-string-length-wrong", det, obs, src[0]); }
+                    } else if (rc == ESNOSPC || rc == ESLEMIN) {
+                        if (dmax >= dl + 5) { snprintf(obs, sizeof obs, "wcsnorm_s(%s, dmax=%zu) reports %d although the NFD text has %zu characters", fm, dmax, rc, (size_t)dl); vio("C17", "wcsnorm_s-string-no-space-with-4-spare", det, obs, src[0]); }
+                        if (d[0] != 0) { snprintf(obs, sizeof obs, "wcsnorm_s(%s, dmax=%zu) fails with %d but dest[0]=%#x", fm, dmax, rc, (unsigned)d[0]); vio("C04", "wcsnorm_s-failed-dest-not-empty", det, obs, src[0]); }
+                    } else { snprintf(obs, sizeof obs, "wcsnorm_s(%s, dmax=%zu) returns %d", fm, dmax, rc); vio("C17", "wcsnorm_s-string-unexpected-code", det, obs, src[0]); }
+                    { char b[80]; snprintf(b, sizeof b, "n;%d;%s;%d;%zu", len, det, rc, (size_t)rl); distinct_add(hash_str(b)); }
+                }
+            }
+        }
+    }
+}
+
 static void mode_norm(void) {
     static char line[8192]; static wchar_t src[600], out[1024], out2[1024];
     while (fgets(line, sizeof line, stdin)) {
@@ -134,8 +177,8 @@ int main(int argc, char **argv) {
     }
     arena_init(); fence_init(); probes_install();
     if (!strcmp(g_mode, "norm")) { mode_norm(); printf("END %llu\n", n_cases); return 0; }
-    if (!strcmp(g_mode, "fcstr")) mode_fcstr(); else mode_fold();
-    emit_counter(!strcmp(g_mode, "fcstr") ? "fold_string_cases" : "fold_cases", n_cases); emit_counter("fold_faults", n_faults);
+    if (!strcmp(g_mode, "fcstr")) mode_fcstr(); else if (!strcmp(g_mode, "normstr")) mode_normstr(); else mode_fold();
+    emit_counter(!strcmp(g_mode, "fcstr") ? "fold_string_cases" : !strcmp(g_mode, "normstr") ? "norm_string_cases" : "fold_cases", n_cases); emit_counter("fold_faults", n_faults);
     distinct_emit();
     fprintf(g_out, "{\"t\":\"end\"}\n"); fflush(g_out);
     return 0;
